@@ -22,6 +22,7 @@ type jOutcome struct {
 	ErrText    string   `json:"err_text"`
 	Announcers []uint16 `json:"announcers"` // peers whose announcement (type 1|2, own tag for the topic) was handed to this member
 	ContFirst  bool     `json:"cont_before_return"`
+	Blocked    bool     `json:"blocked"` // a HandleMessage call did not return
 }
 
 type jDiscRun struct {
@@ -173,6 +174,7 @@ func runDiscWhole(r *prng, id int) *jDiscRun {
 		ann  map[uint16]bool
 		ret  bool
 		cbr  bool
+		blk  bool
 	}
 	hs := map[uint16]*honest{}
 	for _, x := range run.Running {
@@ -210,7 +212,19 @@ func runDiscWhole(r *prng, id int) *jDiscRun {
 					h.ann[m.from] = true
 					h.mu.Unlock()
 				}
-				h.m.HandleMessage(m.from, m.data)
+				fin := make(chan struct{})
+				go func() {
+					defer close(fin)
+					h.m.HandleMessage(m.from, m.data)
+				}()
+				select {
+				case <-fin:
+				case <-time.After(2 * time.Second):
+					h.mu.Lock()
+					h.blk = true
+					h.mu.Unlock()
+					return
+				}
 				select {
 				case <-stop:
 					return
@@ -368,7 +382,7 @@ func runDiscWhole(r *prng, id int) *jDiscRun {
 	for _, x := range run.Running {
 		h := hs[x]
 		h.mu.Lock()
-		o := jOutcome{ID: x, NCont: h.n, ContFirst: h.cbr}
+		o := jOutcome{ID: x, NCont: h.n, ContFirst: h.cbr, Blocked: h.blk}
 		if h.n > 0 {
 			o.Cont = u16s(h.cont)
 		}
